@@ -1,3 +1,3 @@
 #!/bin/sh
-# run the repository's baseline test suite (guard off: there are no hooks) and print a summary
-cd /repo && CARGO_NET_OFFLINE=true cargo test --workspace --no-fail-fast --offline 2>&1 | grep -E "^test result|FAILED|failed|panicked|error" 
+# run the repository's baseline test suite (guard off: there are no hooks) the way BASELINE.json does (nextest), plus the doc tests
+cd /repo && CARGO_NET_OFFLINE=true cargo nextest run --workspace --no-fail-fast --offline 2>&1 | grep -E "Summary|FAIL|failed" ; CARGO_NET_OFFLINE=true cargo test --workspace --doc --offline 2>&1 | grep -E "^test result|FAILED"
